@@ -53,8 +53,10 @@ CHECKS = {
 }
 
 def main():
-    built = sorted(p for p in CHECKS if os.path.exists(os.path.join(HOME, "vf", "props", p.lower() + ".py")))
-    skip = set(sys.argv[1:])           # ids passed on the command line are held back (module exists but is not yet sound)
+    # only ids listed in tools/claimed.txt (one per line) are claimed: a module that exists but is not yet validated is held back
+    claimed = {l.strip() for l in open(os.path.join(HOME, "tools", "claimed.txt")) if l.strip() and not l.startswith("#")}
+    built = sorted(p for p in CHECKS if p in claimed and os.path.exists(os.path.join(HOME, "vf", "props", p.lower() + ".py")))
+    skip = set(sys.argv[1:])
     try:
         commits = subprocess.run(["git", "-C", "/repo", "log", "--format=%h %s"], capture_output=True, text=True).stdout.splitlines()
     except Exception:
